@@ -33,7 +33,7 @@ ASSUMPTIONS = [
     'wall-clock window of the write call (only time-related oracle)',
 ]
 ANCHORS = ['Table.to_hdf5', 'Table.from_hdf5', 'general_formatter', 'vlen_list_of_str_formatter', 'general_parser', 'vlen_list_of_str_parser', 'load_table', 'parse_biom_table', 'save_table', 'biom_open']
-REQUIRED = ['loader_load_table_handle', 'format_fs_writes', 'parse_fs_reads', 'loader_load_table', 'loader_parse_table', 'loader_from_hdf5',
+REQUIRED = ['ragged_metadata_cases', 'loader_load_table_handle', 'format_fs_writes', 'parse_fs_reads', 'loader_load_table', 'loader_parse_table', 'loader_from_hdf5',
             'loader_from_hdf5_observation_view', 'files_written',
             'layout_csc_seen', 'layout_unsorted_seen', 'nonascii_ids',
             'slash_in_ids_or_categories', 'group_metadata_checked',
@@ -94,6 +94,8 @@ def compare_loaded(ctx, name, t2, src, cfg, wr, desc):
 
 
 def run_case(ctx, index):
+    if index % 29 == 11:
+        return _hdf5.ragged_case(ctx, index, ctx.rng(index), 'C01')
     g = _hdf5.gen_case(ctx, index)
     if g is None:
         return
